@@ -1,7 +1,7 @@
 """iterator engine: C25 (module iterator), C26 (component iterator)"""
 ITER_TB = ["coq/Model/Iter.v: hand-written mirror of FuncSubIterator / ModuleSubIterator / ComponentSubIterator and of "
-           "ModuleIterator / ComponentIterator::{new,next,curr_loc,curr_op,reset}, with explicit Panic outcomes "
-           "(tied to /repo by the correspondence run); coq/Check/CheckIter.v: the executable specification and the D12/D13 input classes"]
+           "ModuleIterator / ComponentIterator::{new,next,curr_loc,curr_op,reset} (after the repair of D12/D13), with explicit Panic outcomes "
+           "(tied to /repo by the correspondence run); coq/Check/CheckIter.v: the executable specification (no known-finding class)"]
 
 _COMMON = dict(
     engine="iter",
@@ -16,23 +16,23 @@ PROPS = {
     "C25": dict(
         _COMMON,
         proof_targets=["Props/C25.vo"],
-        theorems=[("C25", "C25_visits_exact"), ("C25", "C25_checker_sound"), ("C25", "C25_refuted"), ("C25", "C25_spec_contents"), ("C25", "C25_spec_in_order_once")],
+        theorems=[("C25", "C25_visits_exact"), ("C25", "C25_checker_sound"), ("C25", "C25_spec_contents"), ("C25", "C25_spec_in_order_once")],
         quick=dict(n=2400), thorough=dict(n=48000),
         rule="wasm-encoder modules with 0-3 imported functions (plus an interleaved global import), 0-6 local functions of 1-8 "
              "instructions with unique constants; skip lists: empty, import/unknown ids, interior, random subsets with duplicates, "
              "all, all-but-one, trailing, first (also with an equal-length successor); script: construct, optionally k next() "
              "calls + reset(), full traversal recording curr_loc()/curr_op() at every step, optionally curr_loc() after the end; "
-             "7 hand-written witnesses (corpus/C25.json); non-trivial = at least one local function and >= 2 instructions to visit",
-        level_text="Proof (Coq, every module, skip list and script, no size bound) that outside the input class D12 the model of "
+             "7 hand-written regression inputs, the former witnesses of D12 (corpus/C25.json); non-trivial = at least one local function and >= 2 instructions to visit",
+        level_text="Proof (Coq, every module, skip list and script, no size bound) that the model of "
                    "ModuleIterator yields exactly the specified event list (every instruction of every unskipped local function "
-                   "once, in order, correct location / end flag / operator, restart after reset, no panic); vm_compute refutations "
-                   "for each shape of D12; the model is tied to /repo's working tree by differential evaluation inside Coq "
+                   "once, in order, correct location / end flag / operator, restart after reset, no panic), including modules "
+                   "without local functions and skip lists covering the first, the last or every function; the model is tied to /repo's working tree by differential evaluation inside Coq "
                    "(model =? observed events, specification =? observed events) on generated cases.",
         level_note="Trusted: Coq kernel + vm_compute; the harness (generator, driver loop mirroring `walk`/`run` of Model/Iter.v, "
                    "case printer); that the sampled correspondence extends to unsampled inputs. Modelled, not verified: "
                    "src/subiterator/*.rs, src/iterator/module_iterator.rs (new/next/curr_loc/curr_op/reset), Module::get_func_metadata.",
         design_ref="5/C25",
-        modelled="FuncSubIterator, ModuleSubIterator (new, handle_skips, next, next_function, has_next, reset, curr_loc), "
+        modelled="FuncSubIterator, ModuleSubIterator (new, next_unskipped, next, next_function, has_next_function, is_empty, get_curr_func, reset, curr_loc), "
                  "ModuleIterator::{new,next,curr_loc,curr_op,reset}",
         assumptions=["a traversal is the loop `record curr_loc(); if next() is None break` preceded by a curr_op() check (None = nothing to visit)",
                      "curr_loc() after the end of a traversal must not panic (counted as part of 'works on any parsed module'); only probed in about half of the cases",
@@ -41,28 +41,28 @@ PROPS = {
     "C26": dict(
         _COMMON,
         proof_targets=["Props/C26.vo"],
-        theorems=[("C26", "C26_visits_exact"), ("C26", "C26_as_module_iterators_partial"), ("C26", "C26_single_module"),
-                  ("C26", "C26_checker_sound"), ("C26", "C26_refuted")],
+        theorems=[("C26", "C26_visits_exact"), ("C26", "C26_as_module_iterators"), ("C26", "C26_single_module"),
+                  ("C26", "C26_checker_sound")],
         quick=dict(n=1600), thorough=dict(n=32000),
         rule="wasm-encoder components with 1-4 core modules generated as for C25 (optionally custom sections in between), a skip map "
              "(modules present with a list, present with an empty list, or absent), the same script against ComponentIterator; "
              "plus 0-4 `before: i32.const k; drop` injections at random expected locations made once through a ComponentIterator "
              "and once through per-module ModuleIterators, the two encoded components compared byte for byte; 6 hand-written "
-             "witnesses (corpus/C26.json); non-trivial = >= 2 instructions to visit",
-        level_text="Proof (Coq, every component, skip map and script, no size bound) that outside the input classes D12/D13 the model of "
-                   "ComponentIterator yields exactly the concatenation over the modules of the module-level visit lists (and equals the "
-                   "concatenation of the ModuleIterator model runs); vm_compute refutations for each shape of D13; correspondence of the "
+             "regression inputs, the former witnesses of D13 (corpus/C26.json); non-trivial = >= 2 instructions to visit",
+        level_text="Proof (Coq, every component, skip map and script, no size bound) that the model of "
+                   "ComponentIterator yields exactly the concatenation over the modules of the module-level visit lists and equals the "
+                   "concatenation of the ModuleIterator model runs; correspondence of the "
                    "model with /repo's working tree by differential evaluation inside Coq. The injection half (same encoded modules) is "
-                   "tested, not proved: the harness compares the encodings and Coq requires the comparison to succeed outside D12/D13.",
+                   "tested, not proved: the harness compares the encodings and Coq requires the comparison to succeed on every case.",
         level_note="Trusted: Coq kernel + vm_compute; the harness (generator, driver loop, byte comparison of the two encodings, case "
                    "printer); that the sampled correspondence extends to unsampled inputs. Modelled, not verified: "
                    "src/subiterator/component_subiterator.rs, src/iterator/component_iterator.rs (new/next/curr_loc/curr_op/reset). "
                    "Not modelled: the injection path (LocalFunction::add_instr) and Component::encode -- compared on the real code only.",
         design_ref="5/C26",
-        modelled="ComponentSubIterator (new, next, next_module, reset, curr_loc, end), ComponentIterator::{new,next,curr_loc,curr_op,reset}",
-        assumptions=["'as a module iterator visits each module' is read against the specified module-level behaviour (C25's specification); "
-                     "deviations caused by D12 inside a module are reported in class 12, deviations of the component layer in class 13",
-                     "components contain at least one core module and only top-level core modules are iterated (as ComponentIterator does)",
+        modelled="ComponentSubIterator (new, enter_module, skip_empty_modules, next, next_module, reset, curr_loc, end), ComponentIterator::{new,next,curr_loc,curr_op,reset}",
+        assumptions=["'as a module iterator visits each module' is read against the specified module-level behaviour (C25's specification), "
+                     "which the ModuleIterator model is proved to have (C26_as_module_iterators)",
+                     "only top-level core modules are iterated (as ComponentIterator does); generated components contain at least one core module",
                      "same script conventions as C25"],
     ),
 }
